@@ -566,8 +566,41 @@ var messageCheck = &core.Check{Name: "c04/message", Quick: 4000, Thorough: 30000
 	if err := tlbgen.Equal(reflect.ValueOf(tm), reflect.ValueOf(back)); err != nil {
 		return fmt.Errorf("decoding the schema's Message encoding: %v", err)
 	}
-	return nil
+	// the decoded message, after a caller has read from its external addresses (read cursors are not part
+	// of an address), must encode to the schema's cell again
+	for _, info := range []*tlb.MsgAddress{addrOf(&back, true), addrOf(&back, false)} {
+		if info != nil && info.SumType == "AddrExtern" && info.AddrExtern != nil {
+			info.AddrExtern.ReadBit()
+			info.AddrExtern.ReadUint(7)
+		}
+	}
+	cell2 := boc.NewCell()
+	if err := tlb.Marshal(cell2, back); err != nil {
+		return fmt.Errorf("Marshal of the decoded Message: %v", err)
+	}
+	return sameAsRef(cell2, b.Cell(), "decoded Message encoded again")
 }}
+
+func addrOf(m *tlb.Message, src bool) *tlb.MsgAddress {
+	switch m.Info.SumType {
+	case "IntMsgInfo":
+		if src {
+			return &m.Info.IntMsgInfo.Src
+		}
+		return &m.Info.IntMsgInfo.Dest
+	case "ExtInMsgInfo":
+		if src {
+			return &m.Info.ExtInMsgInfo.Src
+		}
+		return &m.Info.ExtInMsgInfo.Dest
+	case "ExtOutMsgInfo":
+		if src {
+			return &m.Info.ExtOutMsgInfo.Src
+		}
+		return &m.Info.ExtOutMsgInfo.Dest
+	}
+	return nil
+}
 
 // ---------------------------------------------------------------------------------------------
 // (5) real chain data: decode and encode again
@@ -702,6 +735,49 @@ func pseudoTape(seed uint64, first ...uint64) []uint64 {
 	return tape
 }
 
+// tape: array width in bytes (1..127), seed. A fixed byte array is `bits (8*n)`; the type is built with
+// reflect.ArrayOf so that widths the library itself does not declare are covered as well.
+var arrayCheck = &core.Check{Name: "c04/bytearrays", Fn: func(c *core.Ctx) error {
+	n := 1 + c.Intn("width", 127)
+	raw := make([]byte, n)
+	core.NewSplitMix(c.U64("seed")).Fill(raw)
+	st := reflect.StructOf([]reflect.StructField{
+		{Name: "A", Type: reflect.TypeOf(tlb.Uint5(0))},
+		{Name: "B", Type: reflect.ArrayOf(n, reflect.TypeOf(byte(0)))},
+		{Name: "C", Type: reflect.TypeOf(tlb.Uint2(0))},
+	})
+	v := reflect.New(st).Elem()
+	v.Field(0).SetUint(0x15)
+	reflect.Copy(v.Field(1), reflect.ValueOf(raw))
+	v.Field(2).SetUint(2)
+	var b tlbref.B
+	b.U(0x15, 5).Bytes(raw).U(2, 2)
+	c.Note("width_bytes", n)
+	c.NonTrivial(n)
+	cell := boc.NewCell()
+	err := tlb.Marshal(cell, v.Interface())
+	if !b.Fits() {
+		if err == nil {
+			return fmt.Errorf("[%d]byte between two small fields needs %d bits but Marshal reported no error", n, len(b.Bits))
+		}
+		return nil
+	}
+	if err != nil {
+		return fmt.Errorf("[%d]byte: Marshal: %v", n, err)
+	}
+	if err := sameAsRef(cell, b.Cell(), fmt.Sprintf("struct{uint5; [%d]byte; uint2}", n)); err != nil {
+		return err
+	}
+	out := reflect.New(st)
+	if err := tlb.Unmarshal(boc.NewCellWithBits(gen.BitString(b.Bits)), out.Interface()); err != nil {
+		return fmt.Errorf("[%d]byte: the schema's encoding does not decode: %v", n, err)
+	}
+	if !reflect.DeepEqual(out.Elem().Interface(), v.Interface()) {
+		return fmt.Errorf("[%d]byte: decoding the schema's encoding gives another value", n)
+	}
+	return nil
+}}
+
 func TestProp(t *testing.T) {
 	t.Run("combinators", func(t *testing.T) { core.Run(t, comboCheck) })
 	t.Run("message", func(t *testing.T) { core.Run(t, messageCheck) })
@@ -740,6 +816,13 @@ func TestEnum(t *testing.T) {
 			}
 		}
 	})
+	core.RunEnum(t, arrayCheck, "fixed byte arrays of every width 1..127 bytes between two unaligned fields", func(yield func(...uint64) bool) {
+		for n := 0; n < 127; n++ {
+			if !yield(uint64(n), uint64(n)*2654435761+1) {
+				return
+			}
+		}
+	})
 	per := core.Scale(3, 60)
 	core.RunEnum(t, tagCheck, fmt.Sprintf("every constructor of every union type encoded by the reflection codec (%d constructors) x %d payloads", len(unionCtors), per), func(yield func(...uint64) bool) {
 		for ci := range unionCtors {
@@ -766,4 +849,4 @@ func TestReal(t *testing.T) {
 	}
 }
 
-func TestReplay(t *testing.T) { core.Replay(t, intCheck, comboCheck, tagCheck, messageCheck, realCheck) }
+func TestReplay(t *testing.T) { core.Replay(t, intCheck, comboCheck, tagCheck, messageCheck, realCheck, arrayCheck) }
